@@ -68,6 +68,10 @@ def main(argv):
         with ThreadPoolExecutor(max_workers=jobs) as ex:
             futs = []
             for u in sel:
+                # must-fail mutants are run with the unit's PRIMARY property (and its quick_props): C04/C05/C15 tag nearly every unit and
+                # would otherwise repeat the whole mutant battery of every other property
+                if not (u['props'][0] == prop or prop in u.get('quick_props', [])):
+                    continue
                 for i, m in enumerate(u.get('selftest', [])):
                     futs.append((u, i, m, ex.submit(vf.run_unit, u, False, m)))
             for u, i, m, f in futs:
